@@ -408,6 +408,13 @@ def do_call(spec):
                 distinct = r.random() < 0.5            # all routes distinct: nothing merges
                 t = [RoutingTableEntry({routes[i % 4] if distinct and i < 4 else r.choice(routes[:2])}, k, (1 << bits) - 1)
                      for i, k in enumerate(keys)]
+                if r.random() < 0.6:
+                    # more general entries (don't-care bits) of another key block, listed FIRST or in between: the
+                    # caller's list is then not in increasing order of generality
+                    for j in range(r.randrange(1, 3)):
+                        x = r.randrange(1, 1 << bits)
+                        e = RoutingTableEntry({r.choice(routes)}, (1 + j) << bits, ((3 << bits) | ((1 << bits) - 1)) & ~x)
+                        t.insert(r.randrange(0, len(t)), e)
                 args = [t]
                 before = [snap(a) for a in args]
                 t2, al2 = ordered_covering.ordered_covering(t, r.choice([0, len(t), 100]), no_raise=True)
